@@ -316,10 +316,40 @@ theorem signed_bounds (z : Bool) (n : Nat) (h : n < 2 ^ 64) :
   · simpa using toInt64_bounds n h
   · simpa using unzigzag_bounds n h
 
+mutual
+/-- no byte array `[N]byte` anywhere in the type. The converse direction needs it: `Unmarshal` accepts a payload LONGER
+than the array (it copies the first N bytes, `proto.bytearr`), the reference accepts exactly N bytes — see
+`ProtoLiberalFindings.long_array_differs`. -/
+def noArr : Ty → Bool
+  | .arr _ _ => false
+  | .ptr t => noArr t
+  | .slice t => noArr t
+  | .struct fs => noArrFields fs
+  | _ => true
+def noArrFields : Fields → Bool
+  | .nil => true
+  | .cons _ _ _ t rest => noArr t && noArrFields rest
+end
+
+theorem find_noArr (num : Nat) : ∀ (fs : Fields) (i j : Nat) (o : FieldOpt) (t : Ty),
+    noArrFields fs = true → findField.go num fs i = some (j, o, t) → noArr t = true
+  | .nil, i, j, o, t, _, h => by simp [findField.go] at h
+  | .cons name tag emb t0 rest, i, j, o, t, hf, h => by
+    simp only [noArrFields, Bool.and_eq_true] at hf
+    rw [findField_go_cons] at h
+    by_cases hn : (Spec.Protobuf.fieldOpt (i + 1) tag).number = num
+    · rw [if_pos hn] at h
+      simp only [Option.some.injEq, Prod.mk.injEq] at h
+      obtain ⟨_, _, rfl⟩ := h
+      exact hf.1
+    · rw [if_neg hn] at h
+      exact find_noArr num rest (i + 1) j o t hf.2 h
+
 /-- **one scalar occurrence, converse**: the record has the wire type of the field's codec and the codec accepts the
 payload ⇒ the reference accepts the record (with the value the forward lemma `scalar_agree` identifies) -/
 theorem scalar_conv (t : Ty) (o : FieldOpt) (w : WireVal) (p : Bytes) (cur cur' v : Val) (F f : Nat) (fl : Flags)
-    (m' : Nat) (ht : tyOK t = true) (hs : isStructTy t = false) (hnp : isPtr t = false) (hns : isSlice t = false)
+    (m' : Nat) (ht : tyOK t = true) (hna : noArr t = true) (hs : isStructTy t = false) (hnp : isPtr t = false)
+    (hns : isSlice t = false)
     (ho : optOK t o = true) (hfl : fl.zigzag = o.zigzag) (hp : Pay w p)
     (hw : wireNum w = (codecFor t o).wire.num)
     (h : decodeU f (codecFor t o) p cur' fl = .ok (v, m')) :
@@ -331,6 +361,7 @@ theorem scalar_conv (t : Ty) (o : FieldOpt) (w : WireVal) (p : Bytes) (cur cur' 
   case struct => exact absurd hs (by simp [isStructTy])
   case ptr => exact absurd hnp (by simp [isPtr])
   case slice => exact absurd hns (by simp [isSlice])
+  case arr => simp [noArr] at hna
   case bool =>
     cases w <;> simp only [codecFor, codecOf, Codec.wire, wireNum, num_varint] at hw <;> try (exact absurd hw (by decide))
     exact ⟨_, by simp only [decodeOne]; rfl⟩
